@@ -517,4 +517,73 @@ theorem writeRecord_changes (cfg : Cfg) (prev : Option Nat) (r : Record) :
     | some c => simp [applyT, ht']
   · rfl
 
+/-- a call without a change row keeps its alleles (up to order) -/
+theorem writeRecord_gtPerm_of_no_row (cfg : Cfg) (prev : Option Nat) (r : Record) (n : String) (c c' : Call)
+    (hc : clookup r.calls n = some c) (hc' : clookup (writeRecord cfg prev r).record.calls n = some c')
+    (hno : ∀ row ∈ (writeRecord cfg prev r).changes, row.sample ≠ n) : GtPerm c'.gt c.gt := by
+  rw [writeRecord_clookup, hc] at hc'
+  simp only [Option.map_some, Option.some.injEq] at hc'
+  subst hc'
+  unfold finalCall
+  cases hft : findTarget cfg n with
+  | none => exact GtPerm.refl _
+  | some t =>
+    simp only
+    obtain ⟨hname, hmem⟩ := findTarget_name hft
+    split
+    · rename_i hreach
+      have hnone : (updateCall cfg t r (clearPhasing cfg r.format c)).2 = none := by
+        cases hu : (updateCall cfg t r (clearPhasing cfg r.format c)).2 with
+        | none => rfl
+        | some row =>
+          exfalso
+          apply hno row
+          · rw [writeRecord_changes, if_pos hreach, List.mem_filterMap]
+            exact ⟨t, hmem, by rw [hname, hc]; exact hu⟩
+          · rw [(updateCall_changed cfg t r _ row hu).1, hname]
+      exact (updateCall_unchanged cfg t r _ hnone).trans (clearPhasing_gtPerm cfg r.format c)
+    · exact clearPhasing_gtPerm cfg r.format c
+
+/-- phases with the alleles of the input genotypes produce no change rows -/
+theorem writeRecord_changes_nil_of_trusted (cfg : Cfg) (prev : Option Nat) (r : Record)
+    (htrust : ∀ t ∈ cfg.targets, ∀ c p, clookup r.calls t.name = some c →
+        lookupPhase cfg.mav t r.pos = some p → sortNat p = gcode c.gt) :
+    (writeRecord cfg prev r).changes = [] := by
+  rw [writeRecord_changes]
+  split
+  · rw [List.filterMap_eq_nil_iff]
+    intro t ht
+    cases hc : clookup r.calls t.name with
+    | none => rfl
+    | some c =>
+      simp only [Option.bind_some, updateCall_snd, changeStep]
+      split
+      · rename_i p hp
+        have := htrust t ht c p hc hp
+        rw [clearPhasing_gcode, if_neg (by simpa using this)]
+      · rfl
+  · rfl
+
+/-- every output of `writeChrom` sits at the index of the input record it was made from -/
+theorem writeChrom_getElem (cfg : Cfg) (rs : List Record) (prev : Option Nat) (i : Nat) (o : Out)
+    (h : (writeChrom cfg prev rs)[i]? = some o) : ∃ prev' r, rs[i]? = some r ∧ o = writeRecord cfg prev' r := by
+  induction rs generalizing prev i with
+  | nil => simp [writeChrom] at h
+  | cons r rest ih =>
+    cases i with
+    | zero =>
+      simp only [writeChrom, List.getElem?_cons_zero, Option.some.injEq] at h
+      exact ⟨prev, r, rfl, h.symm⟩
+    | succ j =>
+      simp only [writeChrom, List.getElem?_cons_succ] at h
+      obtain ⟨p', r', h1, h2⟩ := ih _ j h
+      exact ⟨p', r', by simpa using h1, h2⟩
+
+theorem writeChrom_length (cfg : Cfg) (rs : List Record) (prev : Option Nat) :
+    (writeChrom cfg prev rs).length = rs.length := by
+  induction rs generalizing prev with
+  | nil => rfl
+  | cons r rest ih => simp [writeChrom, ih]
+
+
 end WhVerif.C04
